@@ -74,8 +74,9 @@ def inventory(facts):
         c = P.cfgs[r]
         sites = cfgmod.panic_sites(c, P.cfgs)
         per = {}
+        base = cfgmod.closure_creation_depth(P, r) if root_of(r) != r else 0
         for s in sites:
-            s["ctrl"] = cfgmod.ctrl_depth(c, s["block"])
+            s["ctrl"] = base + cfgmod.ctrl_depth(c, s["block"])
             per.setdefault(s["kind"], []).append(s)
         fams.setdefault(family(r), []).append((r, per))
     return P, R, fams, missing
